@@ -320,7 +320,14 @@ func foreignLines(dump string) []string {
 func (w *hpWorld) violate(sig, msg string, extra map[string]interface{}) {
 	w.violated = true
 	w.run.Count("viol_"+sig, 1)
-	wit := map[string]interface{}{"history": w.h, "fault": w.fault, "executed": w.trace, "failing_observation": msg,
+	var model []map[string]interface{}
+	for _, c := range w.ctrs {
+		model = append(model, map[string]interface{}{"pod": c.pod.Name, "container": c.cid, "rules": c.rules, "file": c.file,
+			"sock": []string{"closed", "open", "unspecified"}[c.sock], "socket_keys": c.socketKeys(), "lost_at_restart": keysOf(c.lost),
+			"reopened_by_restart": c.reopened})
+	}
+	wit := map[string]interface{}{"history": w.h, "fault": w.fault, "executed": w.trace, "failing_observation": msg, "model": model,
+		"harness_http_listener": w.srvKey,
 		"nat_dump": w.ipt.Dump("nat"), "galaxy_config": w.cfg.JSONText}
 	for k, v := range extra {
 		wit[k] = v
@@ -360,7 +367,7 @@ func newHPWorld(run *evid.Run, env *runEnv, cfg *staticConf, h *hpHistory, fault
 	w.ipt.ResetRejects()
 	w.plantedNat = foreignLines(w.ipt.Dump("nat"))
 	w.plantedFlt = foreignLines(w.ipt.Dump("filter"))
-	b, err := ownBoundPorts()
+	b, err := ownBoundPortsStable(nil)
 	if err != nil {
 		return nil, err
 	}
@@ -722,7 +729,7 @@ func (w *hpWorld) step(i int) {
 		for _, x := range w.ctrs {
 			switch {
 			case x.added && x.inKube && x.rules:
-				x.sock, x.reopened = sockOpen, true
+				x.sock, x.reopened, x.lost = sockOpen, true, nil
 				w.run.Count("pods_resynced_by_restart", 1)
 			case x.added && !x.inKube:
 				// dead container not yet collected: the full sync drops its chains, nobody reopens its ports
@@ -888,12 +895,18 @@ func (w *hpWorld) check(kind string, actor *hpCtr) {
 		}
 	}
 	// 4. sockets of this process
-	bound, err := ownBoundPorts()
+	bound, err := ownBoundPortsStable(func() { run.Count("proc_net_snapshots_reread", 1) })
 	if err != nil {
 		run.Inconclusive("cannot read /proc: " + err.Error())
 		return
 	}
 	run.Count("socket_probes", 1)
+	// the harness's own HTTP listener (kernel-chosen port, possibly one a pod held before the restart) and whatever
+	// this process held before the world started are not galaxy's
+	delete(bound, w.srvKey)
+	for k := range w.baseline {
+		delete(bound, k)
+	}
 	expect, anyState := map[string]*hpCtr{}, map[string]bool{}
 	for k := range w.held {
 		expect[k] = nil
@@ -918,7 +931,7 @@ func (w *hpWorld) check(kind string, actor *hpCtr) {
 		}
 	}
 	for k := range bound {
-		if w.baseline[k] || anyState[k] || k == w.srvKey {
+		if anyState[k] {
 			continue
 		}
 		if _, ok := expect[k]; ok {
